@@ -140,6 +140,9 @@ type Scenario struct {
 	Site string
 	// Whole: the scenario is owned entirely by the calling shard (the caller shards by scenario).
 	Whole bool
+	// Scope, when set, is the evidence scope the executions are counted under (a family of
+	// scenarios); the scenario's own name is then only kept in samples and violation cases.
+	Scope string
 }
 
 // ReplayCase is what a schedule violation records.
@@ -154,7 +157,11 @@ func Explore(c *core.Ctx, rl *RaceLog, sc Scenario) {
 	for _, b := range sc.Bounds {
 		var st vsched.Stats
 		outcomes := map[string]bool{}
-		scope := fmt.Sprintf("%s/bound=%s", sc.Name, boundName(b))
+		scopeName := sc.Name
+		if sc.Scope != "" {
+			scopeName = sc.Scope
+		}
+		scope := fmt.Sprintf("%s/bound=%s", scopeName, boundName(b))
 		vsched.Explore(func() (func(), func(vsched.Exec, bool)) {
 			root, oracle := sc.Make()
 			return root, func(x vsched.Exec, owned bool) {
@@ -196,7 +203,7 @@ func Explore(c *core.Ctx, rl *RaceLog, sc Scenario) {
 				c.Eval(scope, outcome)
 				outcomes[outcome] = true
 				c.NontrivialHash(core.Hash(sc.Name, fmt.Sprint(x.Choices())))
-				c.Sample(sc.Name, map[string]any{"scenario": sc.Case, "bound": b, "schedule": x.Trace(), "outcome": outcome})
+				c.Sample(scopeName, map[string]any{"scenario": sc.Case, "bound": b, "schedule": x.Trace(), "outcome": outcome})
 			}
 		}, shardOpts(c, sc, b), &st)
 		c.State()
@@ -207,7 +214,9 @@ func Explore(c *core.Ctx, rl *RaceLog, sc Scenario) {
 			c.Cap("%s: bound %s not completed (deadline) after %d executions", sc.Name, boundName(b), st.Execs)
 			return
 		}
-		c.Bound(scope, map[string]any{"executions_this_shard": st.Execs, "max_points": st.MaxPoints, "threads": st.MaxThreads})
+		if sc.Scope == "" {
+			c.Bound(scope, map[string]any{"executions_this_shard": st.Execs, "max_points": st.MaxPoints, "threads": st.MaxThreads})
+		}
 	}
 }
 
